@@ -44,7 +44,7 @@ EXN_CLASS = {
 REGIONS = [
     "no_wildcard_keys",
     "single_media_type",
-    "no_int_keys",
+    "int_keys_immaterial",
     "keys_parse",
     "flat_refs",
     "no_header_refs",
@@ -164,9 +164,11 @@ def gen_header(rng, v30):
     return h
 
 
-def gen_doc(rng, weird=False, clean=False):
+def gen_doc(rng, weird=False, clean=False, intkeys=False):
     """clean: inside every region by construction (exact keys and default, at most one media type, flat references,
-    inline headers); otherwise anything; weird: also keys and media types no document should contain."""
+    inline headers); otherwise anything; weird: also keys and media types no document should contain.
+    intkeys: exact status codes are written as Python integers (a document handed to from_dict as a dict), each with
+    probability 3/4 - next to string keys, wildcards and default, for 3.0 and 2.0."""
     v30 = rng.random() < 0.7
     raw = {"info": {"title": "t", "version": "1"}}
     hdr_names = ["H1", "H2"] if v30 and not clean else []
@@ -185,6 +187,13 @@ def gen_doc(rng, weird=False, clean=False):
             responses[key] = {"$ref": ("#/components/responses/" if v30 else "#/responses/") + rng.choice(sorted(comp_responses))}
         else:
             responses[key] = gen_body_def(rng, v30, weird, hdr_names, clean)
+    if intkeys:
+        if not any(re.fullmatch(r"[1-5][0-9][0-9]", str(k)) for k in responses):
+            responses[rng.choice(["200", "201", "404"])] = gen_body_def(rng, v30, weird, hdr_names, clean)
+        if "default" not in responses and rng.random() < 0.4:
+            responses["default"] = gen_body_def(rng, v30, weird, hdr_names, clean)
+        responses = {(int(k) if isinstance(k, str) and re.fullmatch(r"[1-5][0-9][0-9]", k) and rng.random() < 0.75 else k): v
+                     for k, v in responses.items()}
     op = {"responses": responses}
     if v30:
         raw["openapi"] = rng.choice(["3.0.2", "3.0.0", "3.0.3"])
@@ -500,7 +509,8 @@ def encode_case(raw, resp):
             hvalid_ids.append(i)
     v = "(fun sid _ => existsb (N.eqb sid) %s)" % clist([cN(i) for i in valid_ids], "N")
     hv = "(fun hid _ => existsb (N.eqb hid) %s)" % clist([cN(i) for i in hvalid_ids], "N")
-    regions = "[" + "; ".join(f"{n} d" if n not in ("body_decodes", "ct_wellformed") else f"{n} r" for n in REGIONS) + "; ct_conforms d r]"
+    region_args = {"body_decodes": "r", "ct_wellformed": "r", "int_keys_immaterial": "hv d r"}
+    regions = "[" + "; ".join(f"{n} {region_args.get(n, 'd')}" for n in REGIONS) + "; ct_conforms d r]"
     return (
         f"(let d := {d} in let r := {r} in let v := {v} in let hv := {hv} in "
         f"([status_check d r; content_type_check d r; headers_check hv d r; schema_check v d r], "
@@ -975,7 +985,7 @@ def run(chk: core.Check):
     ]
     chk.rule = (
         "documents drawn from one PRNG (VERIF_SEED): OpenAPI 3.0.x (70%) / Swagger 2.0, 1-4 response keys (exact, NXX/nxx, default; in the 'weird' half also "
-        "x-ext, 40X, XXX, 0200, ' 200', '+200', 2_0_0, '', integers), inline or $ref'd responses (flat / chained), 0-3 media types per response (wildcards, "
+        "x-ext, 40X, XXX, 0200, ' 200', '+200', 2_0_0, '', integers; in a quarter of ALL documents - clean, dirty and weird - the exact codes are Python integers, with and without default), inline or $ref'd responses (flat / chained), 0-3 media types per response (wildcards, "
         "parameters, upper case; weird: malformed, quoted), schemas with nullable / writeOnly / local $ref / empty, 0-3 headers (inline or $ref, required or not), "
         "produces at both levels for 2.0; 5 responses per document: status steered to exact / wildcard / other, Content-Type steered to documented / other / missing / "
         "malformed / empty, header subsets in 3 casings, 26 bodies (valid, violating, malformed JSON, empty, invalid UTF-8). non-trivial = some check or the oracle reports something; "
@@ -999,8 +1009,10 @@ def run(chk: core.Check):
         ndocs *= 3
     for i in range(ndocs):
         weird = i % 3 == 2
-        raw = gen_doc(rng, weird, clean=(i % 3 == 0))
+        raw = gen_doc(rng, weird, clean=(i % 3 == 0), intkeys=(i % 4 == 1))
         chk.count("doc:" + ("weird" if weird else "clean" if i % 3 == 0 else "dirty"))
+        if any(isinstance(k, int) for k in raw["paths"]["/x"]["get"]["responses"]):
+            chk.count("doc:integer_keys:" + ("3.0" if "openapi" in raw else "2.0") + (":with_default" if "default" in raw["paths"]["/x"]["get"]["responses"] else ":no_default"))
         for _ in range(5):
             cases.append((raw, gen_response(rng, raw, weird), weird))
     for f in chk.findings:
